@@ -27,7 +27,7 @@ def _fn(ctx):
     cols = _row_columns(fn, outer)
     if cols and "?" not in cols and len(_flat_names(inner.target)) == len(cols):
         def at(k):
-            return lambda n, v, st: isinstance(st, ast.For) and _itertuples_call(st.iter) is not None and \
+            return lambda n, v, st: isinstance(st, ast.For) and (_itertuples_call(st.iter) is not None or _column_zip(st.iter) is not None) and \
                 k < len(_flat_names(st.target)) and _flat_names(st.target)[k] == n
         fn = with_roles(fn, tuple((c, at(k)) for k, c in enumerate(cols)))
     return fn
@@ -47,6 +47,19 @@ def _row_columns(fn, outer) -> List[str]:
         _, inner = _row_loop(fn)
     except AnalysisError:
         return []
+    cz = _column_zip(inner.iter)
+    if cz is not None and _itertuples_call(inner.iter) is None:
+        out = []
+        for a in cz:
+            if isinstance(a, ast.Subscript) and isinstance(a.slice, ast.Constant):
+                out.append(a.slice.value)
+            elif isinstance(a, ast.Attribute):
+                out.append(a.attr)
+            elif isinstance(a, ast.Name) and any(kind == "series" and nm == a.id for kind, nm, _ in _gap_sources(fn)):
+                out.append("diff")
+            else:
+                out.append("?")
+        return out
     added = [nm for kind, nm, n in _gap_sources(fn) if kind == "column" and n.lineno < inner.lineno]
     it = inner.iter
     zipped = []
@@ -126,12 +139,25 @@ def _itertuples_call(e) -> Optional[ast.Call]:
     return None
 
 
+def _column_zip(it) -> Optional[List[ast.AST]]:
+    """zip(G["a"], G["b"], .., S): the arguments, when at least two are columns of one frame G (the rows walked column-wise)"""
+    if not (isinstance(it, ast.Call) and call_name(it) == "zip" and isinstance(it.func, ast.Name) and len(it.args) >= 2):
+        return None
+    frames = [unparse(a.value) for a in it.args if isinstance(a, ast.Subscript) and isinstance(a.slice, ast.Constant) and isinstance(a.slice.value, str)]
+    frames += [unparse(a.value) for a in it.args if isinstance(a, ast.Attribute) and isinstance(a.value, ast.Name)]
+    if len(frames) >= 2 and len(set(frames)) == 1:
+        return list(it.args)
+    return None
+
+
 def _row_loop(fn) -> Tuple[ast.For, ast.For]:
     """(loop over the column groups, loop over the rows).  The row loop is the one whose iterable yields the rows of a frame through
     itertuples — directly, zipped with a parallel Series, or chained over the groups (then there is no separate group loop and the
     row loop is returned for both)"""
     fors = sorted((n for n in walk_no_nested(fn.node) if isinstance(n, ast.For)), key=lambda n: n.lineno)
     inner = next((n for n in fors if _itertuples_call(n.iter) is not None), None)
+    if inner is None:
+        inner = next((n for n in fors if _column_zip(n.iter) is not None), None)      # rows walked column-wise: zip(G["a"], G["b"], ...)
     if inner is None:
         raise AnalysisError("full_ln: per-column / per-row loops not found")
     outer = next((n for n in fors if n is not inner and any(x is inner for x in ast.walk(n))), None)
@@ -209,7 +235,7 @@ def rule_r1(ctx) -> List[R.Inst]:
     cols = _row_columns(fn, outer)
     names = _flat_names(inner.target)
     itc = _itertuples_call(inner.iter)
-    idx_false = any(k.arg == "index" and isinstance(k.value, ast.Constant) and k.value.value is False for k in itc.keywords)
+    idx_false = itc is None or any(k.arg == "index" and isinstance(k.value, ast.Constant) and k.value.value is False for k in itc.keywords)
     if not cols or not names or "?" in cols:
         insts.append(R.undec(rid, "row-unpack", file, inner.lineno, "projection / row unpacking not recognised"))
     elif names == cols and idx_false:
@@ -345,10 +371,14 @@ def rule_r2(ctx) -> List[R.Inst]:
         # whole-frame form: F.groupby('column')['offset'].shift(-1) - F['offset']
         f2 = (lambda m_: m_ if m_ and m_.group(1) == m_.group(2) else None)(
             _re.fullmatch(r"(\w+)\.groupby\('column'\)\['offset'\]\.shift\(-1\)-(\w+)\['offset'\]", t_))
+        # whole-frame form, per-group lambda: F.groupby('column')['offset'].transform(lambda o: o.diff().shift(-1))
+        f3 = (lambda m_: m_ if m_ and m_.group(2) == m_.group(3) else None)(
+            _re.fullmatch(r"(\w+)\.groupby\('column'\)\['offset'\]\.(?:transform|apply)\(lambda(\w+):(\w+)\.diff\(\)\.shift\(-1\)\)", t_))
+        f1 = f1 or f3
         ops_ = {x.func.attr for x in ast.walk(v) if isinstance(x, ast.Call) and isinstance(x.func, ast.Attribute)}
         if f1 or f2:
             insts.append(R.ok(rid, "gap-to-next", file, d[0].lineno, idiom="next offset of the same column - own offset (diff().shift(-1) / shift(-1) - offset)"))
-        elif ops_ and ops_ <= {"diff", "shift", "groupby"}:
+        elif ops_ and ops_ <= {"diff", "shift", "groupby", "transform", "apply"}:
             insts.append(R.viol(rid, "gap-to-next", file, d[0].lineno,
                                 f"the gap must be (next note's time - own time) = diff().shift(-1); found {unparse(v)}",
                                 construct=unparse(v)))
